@@ -817,6 +817,11 @@ impl<'s, T: Kind, N: Unsigned + Send + Sync, U: UpdateMap<T> + PartialEq + Send 
                 }
                 format!("ok {}", st.out.join(" "))
             }
+            "intlog" => format!("ok {}", milhouse::utils::int_log(n(1)?)),
+            "complevel" => format!(
+                "ok {}",
+                milhouse::utils::compute_level(n(1)?, n(2)?, n(3)?)
+            ),
             "treeof" => {
                 let c = self.coll(n(1)?)?;
                 let (t, d) = match c {
